@@ -189,6 +189,27 @@ func (c *sivCase) exercise() {
 					x.Fail("input-modified", "%s pt=%d ad=%d: EncryptDeterministically modified its input buffers", c.cfg, n, ai-1)
 					return
 				}
+				// back to back on the SAME slices with one byte of each rewritten in place (the caller reuses its buffers)
+				if (n > 0 || len(adIn) > 0) && n <= 80 && ai%3 == 0 {
+					if n > 0 {
+						ptIn[n/2] ^= 0x40
+					}
+					if len(adIn) > 0 {
+						adIn[len(adIn)/2] ^= 0x40
+					}
+					ct3, e3 := c.d.EncryptDeterministically(ptIn, adIn)
+					want3 := append(bytes.Clone(c.pre), ref.SIVEncrypt(c.key, ptIn, adIn)...)
+					if e3 != nil || !bytes.Equal(ct3, want3) {
+						x.Fail("buffer-reuse", "%s pt=%d ad=%d: plaintext/AD buffers rewritten in place between two calls: ciphertext %s, RFC 5297 reference for the second contents %s (%v)", c.cfg, n, ai-1, tk.Hex(ct3), tk.Hex(want3), e3)
+						return
+					}
+					if n > 0 {
+						ptIn[n/2] ^= 0x40
+					}
+					if len(adIn) > 0 {
+						adIn[len(adIn)/2] ^= 0x40
+					}
+				}
 				if !bytes.Equal(ct1, ct2) {
 					x.Fail("nondeterministic", "%s pt=%d ad=%d: two encryptions differ: %s vs %s", c.cfg, n, ai-1, tk.Hex(ct1), tk.Hex(ct2))
 					return
